@@ -52,7 +52,12 @@
 //!      in-VM transaction) over that step by exactly the receipt's amount.
 //!  (3) after init and after every step, for every asset of the tx inputs, the entry
 //!      (asset id ‖ amount) at VM_MEMORY_BALANCES_OFFSET + 40·rank(asset) equals
-//!      `verif_runtime_balance(asset)`.
+//!      `verif_runtime_balance(asset)` (reported once, at the step that introduces a
+//!      difference, keyed by that step's opcode).
+//!  Violation keys: C27:ledger:<base|X|minted|other>:<success|failed>,
+//!  C27:receipt:<kind>:<src|dst|output>, C27:memtable:<opcode|init>. Violations are
+//!  collected per chunk and reported in enumeration order (std/K1, shortest program,
+//!  uncut gas first). Worlds are visited in a Latin-square order (see `build_worlds`).
 //!  asset(contract, sub) = sha256(contract ‖ sub) is computed by the harness.
 
 #[path = "../progkit.rs"]
